@@ -327,13 +327,14 @@ def run(ctx: Ctx, tier: str) -> Result:
             for tg_ in n.targets:
                 if isinstance(tg_, ast.Subscript) and "lookup" in norm(tg_.value):
                     ndel += 1
-                    res.fail(Finding("C07.DELETE", f.qname, n, f.loc(n),
+                    res.fail(Finding("C07.DELETE", f.qname, "<remove %s[%s]>" % (norm(tg_.value), norm(tg_.slice)), f.loc(n),
                                      "a table entry is deleted while the identity cache keeps handing out its id: a later hit on the same object "
                                      "(e.g. a watch `locals()`) yields a reference with no entry"))
         for n in t.calls_in(f):
             if isinstance(n.func, ast.Attribute) and n.func.attr in ("pop", "popitem", "clear", "__delitem__") and "lookup" in norm(n.func.value).lower():
                 ndel += 1
-                res.fail(Finding("C07.DELETE", f.qname, n, f.loc(n),
+                what_ = "<remove %s[%s]>" % (norm(n.func.value), norm(n.args[0])) if n.func.attr in ("pop", "__delitem__") and n.args else n
+                res.fail(Finding("C07.DELETE", f.qname, what_, f.loc(n),
                                  "`%s` removes entries from a variable table while the identity cache keeps handing out their ids: every other reference "
                                  "to the same object (an alias, a child of a container, a watch result) is left pointing at no entry" % norm(n)[:60]))
     if ndel == 0:
@@ -383,6 +384,13 @@ def later_none_test(ctx: Ctx, f, ctor_call) -> str:
         name = norm(tgt.elts[0]) if isinstance(tgt, ast.Tuple) else norm(tgt)
         tests = [n for n in t.nodes_in(cf, ast.Compare) if norm(n.left) == "%s.vid" % name and "None" in norm(n)] + \
                 [n for n in t.nodes_in(cf, ast.Compare) if norm(n.left) == "%s.vid" % name and isinstance(n.ops[0], ast.In)]
+        # looked up with a default and the outcome tested: entry = table.pop(ref.vid, None) / table.get(ref.vid); if entry is not None
+        for a_ in t.nodes_in(cf, ast.Assign):
+            v_ = a_.value
+            if isinstance(v_, ast.Call) and isinstance(v_.func, ast.Attribute) and v_.func.attr in ("pop", "get") and v_.args and norm(v_.args[0]) == "%s.vid" % name \
+                    and (v_.func.attr == "get" or len(v_.args) == 2) and isinstance(a_.targets[0], ast.Name):
+                got_ = a_.targets[0].id
+                tests += [n for n in t.nodes_in(cf, ast.Compare) if norm(n.left) == got_ and "None" in norm(n)]
         if not tests:
             return ""
     return "%d callers" % len(callers)
